@@ -183,6 +183,42 @@ std::string RunSchedule(const std::string& line) {
   return os.str();
 }
 
+// Cold start: NOTHING of the library runs before the threads do, so that the very first uses of the process (creation
+// of the zone map, of the UTC singleton, of the mutex) overlap.  A change that reads shared state outside the lock at
+// that moment is only visible here, and only to ThreadSanitizer; each run is a fresh process.
+int ColdStart(unsigned seed, int nthreads) {
+  g_park = false;
+  std::vector<std::string> names;
+  for (const auto& kv : vz::Table()) names.push_back("V:" + kv.first);
+  names.push_back("Fixed/UTC+01:00:00");
+  names.push_back("Fixed/UTC+02:00:00");
+  names.push_back("V:nosuchzone");
+  std::atomic<int> ready{0};
+  std::atomic<long> sink{0};
+  std::vector<std::thread> ths;
+  for (int i = 0; i < nthreads; ++i) {
+    ths.emplace_back([&, i] {
+      t_index = i;
+      unsigned s = seed * 2654435761u + static_cast<unsigned>(i) * 40503u + 1u;
+      auto rnd = [&] { s = s * 1664525u + 1013904223u; return s >> 8; };
+      ++ready;
+      while (ready.load() < nthreads) {}        // start together
+      if (i % 3 == 1) std::this_thread::sleep_for(std::chrono::microseconds(rnd() % 400));
+      for (int k = 0; k < 6; ++k) {
+        cctz::time_zone tz;
+        cctz::load_time_zone(names[(static_cast<size_t>(i) + static_cast<size_t>(k) * (1 + rnd() % 3)) % names.size()], &tz);
+        sink += tz.lookup(vz::TP(static_cast<long long>(rnd()))).offset;
+        if (k == 1) sink += cctz::utc_time_zone().lookup(vz::TP(0)).offset;
+        if (k == 2) sink += cctz::fixed_time_zone(cctz::seconds(3600 * (i % 5))).lookup(vz::TP(0)).offset;
+        if (k == 3) sink += cctz::local_time_zone().lookup(vz::TP(0)).offset;
+      }
+    });
+  }
+  for (auto& t : ths) t.join();
+  printf("coldstart done %ld\n", sink.load());
+  return 0;
+}
+
 int Stress(unsigned seed, int nthreads, int iters) {
   g_park = false;
   std::vector<std::string> names;
@@ -257,6 +293,9 @@ int Stress(unsigned seed, int nthreads, int iters) {
 namespace cctz_extension { ZoneInfoSourceFactory zone_info_source_factory = ParkingFactory; }
 
 int main(int argc, char** argv) {
+  if (argc >= 4 && std::string(argv[1]) == "coldstart") {
+    return ColdStart(static_cast<unsigned>(std::atoi(argv[2])), std::atoi(argv[3]));
+  }
   if (argc >= 5 && std::string(argv[1]) == "stress") {
     return Stress(static_cast<unsigned>(std::atoi(argv[2])), std::atoi(argv[3]), std::atoi(argv[4]));
   }
